@@ -3,6 +3,7 @@ package main
 // C06 second-line rules: LOOP-CENSUS, REC-CENSUS, C06-PANIC, C06-BOUNDS.
 
 import (
+	"os"
 	"fmt"
 	"go/ast"
 	"go/token"
@@ -724,11 +725,18 @@ func ruleCrossIndex(c *Ctx) {
 		if len(origin) == 0 {
 			continue
 		}
+		if os.Getenv("HLDEBUG") == "xstr" {
+			fmt.Fprintf(os.Stderr, "XSTR %s origins=%d\n", funcName(f), len(origin))
+		}
 		for _, b := range f.Blocks {
 			for _, ins := range b.Instrs {
 				var str, idx ssa.Value
 				switch x := ins.(type) {
 				case *ssa.Lookup:
+					if bt, ok := x.X.Type().Underlying().(*types.Basic); ok && bt.Info()&types.IsString != 0 {
+						str, idx = x.X, x.Index
+					}
+				case *ssa.Index:
 					if bt, ok := x.X.Type().Underlying().(*types.Basic); ok && bt.Info()&types.IsString != 0 {
 						str, idx = x.X, x.Index
 					}
@@ -744,6 +752,9 @@ func ruleCrossIndex(c *Ctx) {
 				}
 				if str == nil || idx == nil {
 					continue
+				}
+				if os.Getenv("HLDEBUG") == "xstr" {
+					fmt.Fprintf(os.Stderr, "   use %s idx=%s slice=%d\n", ins.String(), idx.Name(), len(backSlice(idx)))
 				}
 				for v := range backSlice(idx) {
 					src, ok := origin[v]
